@@ -184,7 +184,7 @@ def check(ctx, prop):
         raise Broken("gate lease.monitor did not fire for a Notice step (hook missing?): hits=%s" % hits)
     skipped = sum(1 for r in rows if r["ev"] == "Skipped")
 
-    violations, first = [], set()
+    violations, first, saved = [], set(), {}
     all_viol = {}
     for line, inv in sorted(viol):
         si, k = loc[line]
@@ -201,7 +201,10 @@ def check(ctx, prop):
             cls = classify([x for x in runs[si][k:k + 1]], 0)  # G14 is about the lease, not about the copy
         # the class "reacquired-with-stale-copy" already names the discriminating situation; otherwise the request kind does
         sig = "%s@%s" % (inv, cls) if cls == "reacquired-with-stale-copy" else "%s@%s:%s" % (inv, ev.get("api", ev["ev"]), cls)
-        path = save_replay(prop, "sched-%s.json" % re.sub(r"\W", "_", sig), {"schedule": scheds[si], "trace": runs[si], "line": ev, "predicate": inv})
+        fname = "sched-%s.json" % re.sub(r"\W", "_", sig)
+        if sig not in saved:  # keep the first (shortest: the deviation counterexamples come first) schedule of a signature
+            saved[sig] = save_replay(prop, fname, {"schedule": scheds[si], "trace": runs[si], "line": ev, "predicate": inv})
+        path = saved[sig]
         slim = {k2: v for k2, v in ev.items() if k2 != "st"}
         violations.append(Violation(prop, sig, "%s false on the real brokers at %s by %s via %s [schedule %s, replay %s]" % (
             inv, ev.get("api", ev["ev"]), ev.get("c", ""), ev["b"], scheds[si]["label"], path), {"schedule": scheds[si], "event": slim}))
